@@ -250,6 +250,15 @@ func alphabet(wal bool) []op {
 				}
 				return false
 			})
+			// close(2) of a -shm descriptor: the kernel's FLUSH drops this owner's locks on that file, and only those
+			add("shm.flush", "shmflush", "shm", nil, false, func(t table, o int) bool {
+				for _, l := range shmLocks {
+					if holds(t, l, o) != U {
+						return true
+					}
+				}
+				return holds(t, P, o) != U || holds(t, R, o) != U || holds(t, Sh, o) != U
+			})
 			add("walwrite.hdr", "walwrite", "wal", nil, false, func(t table, o int) bool { return o == 0 })
 			add("walwrite.frame", "walwrite", "wal", nil, false, func(t table, o int) bool { return o == 0 })
 			add("walwrite.data", "walwrite", "wal", nil, false, func(t table, o int) bool { return o == 0 })
@@ -438,6 +447,9 @@ func (g *rig) do(o op) (res string) {
 			}
 			return "blocked"
 		}
+	case "shmflush":
+		_ = g.shmf[o.owner].Flush()
+		return "ok"
 	case "itry":
 		g.igs = g.db.TryAcquireWriteLock()
 		if g.igs == nil {
@@ -482,6 +494,9 @@ func spec(t table, o op, wal bool) string {
 			return "free"
 		}
 		return "blocked"
+	case "shmflush":
+		t.unlockRange(o.owner, shmLocks)
+		return "ok"
 	case "itry":
 		if t.internalTry(wal) {
 			return "ok"
